@@ -362,8 +362,11 @@ def finish(pid, tier, seed, cfg, reports, extra, t0):
                             explanation=cfg.get('explanation', '')),
               assumptions=ASSUMPTIONS + list(cfg.get('assumptions', [])),
               wall_s=round(wall, 2), violations=len(violations))
-    os.makedirs(os.path.join(ROOT, 'evidence'), exist_ok=True)
-    json.dump(ev, open(os.path.join(ROOT, 'evidence', f'{pid}.json'), 'w'), indent=1)
+    # development runs (--only <regex>, or PYVC_SCRATCH_EVIDENCE=1 set by tools/seedtest.sh while /repo carries a seeded change) must not
+    # replace the record of the last full run on the real tree
+    sub = 'scratch' if (ns.only is not None or os.environ.get('PYVC_SCRATCH_EVIDENCE')) else ''
+    os.makedirs(os.path.join(ROOT, 'evidence', sub), exist_ok=True)
+    json.dump(ev, open(os.path.join(ROOT, 'evidence', sub, f'{pid}.json'), 'w'), indent=1)
     print(f"{pid} tier={tier}: functions={len(functions)} obligations={n_obl} discharged={n_dis} violations={len(violations)} known={len(known_lines)} undecided={len(undecided)} errors={len(errors)} wall={wall:.1f}s exit={code}")
     return code
 
